@@ -278,7 +278,7 @@ def c18_whitespace(tier="quick", seed=0):
     as strippable white space exactly when c is an ECMAScript WhiteSpace or LineTerminator (11.2, 11.3)"""
     from microjs import Context
     from specs.es_core import ES_WHITESPACE
-    c = Context(time_limit=60)
+    c = Context()          # (a finite loop; no wall-clock limit, so that the verdict does not depend on the load of the machine)
     src = ("var bad = []; for (var cp = 0; cp < 65536; cp++) { if (cp >= 0xD800 && cp <= 0xDFFF) continue; var ch = String.fromCharCode(cp);"
            " var a = Number(ch + '42' + ch) === 42, b = parseInt(ch + '42') === 42, d = parseFloat(ch + '4.5') === 4.5, e = Number(ch) === 0;"
            " bad.push((a ? 1 : 0) + (b ? 2 : 0) + (d ? 4 : 0) + (e ? 8 : 0)); } bad")
